@@ -15,6 +15,9 @@ P3_EXCEPTIONS = {
 
 
 def run(ctx):
+    from ..persist import rule_P17
+    k17 = rule_P17(ctx)      # no value is sorted / thinned between attribute and file
+    ctx.require(k17 >= 60, 'P17 saw only %d stored values (floor 60)' % k17)
     from ..persist import rule_P16
     rule_P16(ctx)      # the resume block does not overwrite what the caller configured
     from ..persist import rule_P12k
